@@ -51,6 +51,8 @@ type nodeBasedBalancer struct {
 	selector           selectors.Selector[*single.Context, string]
 	loadRatioAlgorithm selectors.LoadRatioAlgorithm
 	quarantineNodeMap  sync.Map
+	// shards for which a swap has been proposed in the current round (only touched by rebalanceEnsemble)
+	swappedShards map[int64]struct{}
 
 	actionCh  chan Action
 	triggerCh chan struct{}
@@ -78,6 +80,7 @@ func (r *nodeBasedBalancer) quarantineNodes() *linkedhashset.Set[string] {
 
 func (r *nodeBasedBalancer) rebalanceEnsemble() {
 	r.checkQuarantineNodes()
+	r.swappedShards = make(map[int64]struct{})
 
 	swapGroup := &sync.WaitGroup{}
 	currentStatus := r.statusResource.Load()
@@ -201,6 +204,12 @@ func (r *nodeBasedBalancer) swapShard(
 	var exist bool
 	var err error
 
+	// Every proposal of a round is computed from the same status snapshot: a second swap of one shard would
+	// not see the first (same target twice, anti-affinity checked against a stale ensemble). Move one member
+	// per shard and round; the next round continues from the updated status.
+	if _, swapped := r.swappedShards[candidateShard.ShardID]; swapped {
+		return false, nil
+	}
 	if nsc, exist = r.configResource.NamespaceConfig(candidateShard.Namespace); !exist {
 		return false, nil
 	}
@@ -238,6 +247,7 @@ func (r *nodeBasedBalancer) swapShard(
 	}
 
 	swapGroup.Add(1)
+	r.swappedShards[candidateShard.ShardID] = struct{}{}
 	r.actionCh <- &SwapNodeAction{
 		Shard:  candidateShard.ShardID,
 		From:   fromNode,
@@ -359,6 +369,7 @@ func NewLoadBalancer(options Options) LoadBalancer {
 		selector:           single.NewSelector(),
 		loadRatioAlgorithm: single.DefaultShardsRank,
 		quarantineNodeMap:  sync.Map{},
+		swappedShards:      make(map[int64]struct{}),
 		triggerCh:          make(chan struct{}, 1),
 	}
 	nb.startBackgroundScheduler()
